@@ -72,7 +72,8 @@ def run(tier, seed, replay=None):
              "coefficients, missing positions/velocities/forces, count mismatches; every case re-run with one non-first parent moved by a lattice "
              "vector and with all atoms translated. exact stream (2/3): dyadic data, weights with power-of-two totals, compared exactly; generic (1/3): 1e-8. "
              "executable leg: complete runs of the real csg_map (XML topology, two mapping files with random weights, optional d coefficients and zero weights, "
-             "1-6 frames each with its own box) for the format pairs gro/dump -> gro/dump with --vel / --force; one run in seven has a molecule wider than half the "
+             "1-6 frames each with its own box; in half of the runs 30% of the atoms of every frame are moved by up to three whole box vectors per direction, so molecules are "
+             "cut by 0..3 faces and every frame must be unwrapped with its own box) for the format pairs gro/dump -> gro/dump with --vel / --force; one run in seven has a molecule wider than half the "
              "box and must be refused; every written bead (position, velocity, force) compared with the model within the resolution of the output format",
         assumptions=["IEEE rounding not modelled (exact stream avoids it); the half-box test compares rounded norms: cases within 1e-9 of the limit are not judged",
                      "executable leg: the readers' unit conversion of the dump format (stod(s)*ang2nm, *kcal2kj/ang2nm; constants read from constants.h) is reproduced by the harness; "
